@@ -62,7 +62,7 @@ type speller struct {
 // Separators -----------------------------------------------------------
 
 // comments are complete C-style comments with awkward bodies.
-var comments = []string{"/* c */", "/**/", "/*/ x */", "/***/", "/* * / */", "/*\n*/", "/* \" */", "/*/*/", "/* /* looks nested */", "/*//*/", "/* $.a == 1 */", "/*\t*\t*/", "/* é 日本 */", "/*****/", "/*/**/", "/* '\\ */"}
+var comments = []string{"/* c */", "/**/", "/*/ x */", "/***/", "/* * / */", "/*\n*/", "/* \" */", "/*/*/", "/* /* looks nested */", "/*//*/", "/* $.a == 1 */", "/*\t*\t*/", "/* é 日本 */", "/*****/", "/*/**/", "/* '\\ */", "/* \ufffd */"}
 
 func (w *speller) ws() string {
 	switch w.st.R.IntN(8) {
